@@ -129,8 +129,10 @@ class SolvGen:
                 self.add_alias()
             elif k < 0.65:
                 self.add_constant_assignment()
-            elif k < 0.72:
+            elif k < 0.70:
                 self.add_eliminable()
+            elif k < 0.73:
+                self.add_eliminable_state()
             elif k < 0.8:
                 self.add_anchored_chain()
             elif k < 0.9:
@@ -259,7 +261,9 @@ class SolvGen:
         """a = <anchor>; a = b (or b = a): a chain of two algebraic aliases hanging on something that must never be
         eliminated (parameter, constant, input, state)."""
         r = self.r
-        anchor = r.choice(self.params + self.consts + self.inputs + self.states)
+        ders = [u for u in self.unknowns if u.startswith("der(")]
+        kas = [u for u in self.alg if u.startswith("k") and u[1:].isdigit()]     # variables of constant assignments
+        anchor = r.choice(self.params + self.consts + self.inputs + self.states + ders + ders + kas + kas)
         n = sum(1 for d in self.decls if d[2].startswith("ca")) + 1
         a, b = "ca%d" % n, "cb%d" % n
         for nm in (a, b):
@@ -267,11 +271,12 @@ class SolvGen:
             self.val[nm] = self.val[anchor]
             self.unknowns.append(nm)
             self.alg.append(nm)
-        self.eqs.append(("eq", var(a), var(anchor)) if r.random() < 0.7 else ("eq", var(anchor), var(a)))
+        self.eqs.append(("eq", var(a), self.uexpr(anchor)) if r.random() < 0.7 else ("eq", self.uexpr(anchor), var(a)))
         self.eqs.append(("eq", var(a), var(b)) if r.random() < 0.6 else ("eq", var(b), var(a)))
         self.alias_info += [(a, anchor, 1), (b, a, 1)]
         kind = ("parameter" if anchor in self.params else "constant" if anchor in self.consts else
-                "input" if anchor in self.inputs else "state")
+                "input" if anchor in self.inputs else "derivative" if anchor in ders else
+                "constant-assignment-variable" if anchor in kas else "state")
         self.tags.add("alias:anchored-chain:" + kind)
         self.want_aliases = True
 
@@ -342,6 +347,41 @@ class SolvGen:
             # continue the chain: the next eliminable variable is defined through this one
             self.add_eliminable(depth + 1, name)
             self.want_eliminable = True
+
+    def add_eliminable_state(self):
+        """an eliminable *differentiated* variable defined through an eliminable algebraic one whose own definition
+        may come later:  _s = c1 * _ea + d1;  _ea = c2 * yq + d2;  der(_s) = c3 * a + d3;  ws = der(_s) + q.
+        Eliminating _s turns der(_s) into c1 * der(_ea) (and _ea into a state); eliminating _ea turns that into
+        c1 * c2 * der(yq), yq becoming the state.  The system stays regular: _s given -> _ea -> yq; a -> der(_s) -> ws."""
+        r = self.r
+        n = sum(1 for d in self.decls if d[2].startswith("_s")) + 1
+        s_, ea, y, w = "_s%d" % n, "_ea%d" % n, "yq%d" % n, "ws%d" % n
+        a = r.choice([x for x in self.alg if not x.startswith(("_", "xv"))])
+        c1, c2, c3 = q(r, -3, 3), q(r, -3, 3), q(r, -3, 3)
+        d1, d2, qv = q(r, -2, 2, nonzero=False), q(r, -2, 2, nonzero=False), q(r, -2, 2, nonzero=False)
+        ds = q(r, -3, 3)
+        self.val[s_] = q(r, -3, 3)
+        self.val["der(%s)" % s_] = ds
+        self.val[ea] = (self.val[s_] - d1) / c1
+        self.val[y] = (self.val[ea] - d2) / c2
+        self.val[w] = ds + qv
+        d3 = ds - c3 * self.val[a]
+        # derivatives of the variables that simplification may turn into states
+        self.val["der(%s)" % ea] = ds / c1
+        self.val["der(%s)" % y] = ds / (c1 * c2)
+        for nm in (s_, ea, y, w):
+            self.decl(nm)
+        self.unknowns += ["der(%s)" % s_, ea, y, w]
+        self.alg.append(w)
+
+        def lit(v):
+            return num(v) if v >= 0 else ("neg", num(-v))
+        self.eqs.append(("eq", var(s_), ("bin", "+", ("bin", "*", lit(c1), var(ea)), lit(d1))))
+        self.eqs.append(("eq", var(ea), ("bin", "+", ("bin", "*", lit(c2), var(y)), lit(d2))))
+        self.eqs.append(("eq", ("der", var(s_)), ("bin", "+", ("bin", "*", lit(c3), var(a)), lit(d3))))
+        self.eqs.append(("eq", var(w), ("bin", "+", ("der", var(s_)), lit(qv))))
+        self.tags.add("eliminable-variable:differentiated-state-through-eliminable-algebraic")
+        self.want_eliminable = True
 
     def wrap_if(self):
         r = self.r
